@@ -314,6 +314,32 @@ const KEYFRAME_UV_MODE_PROBS: [Prob; 3] = [142, 114, 183];
 const KEYFRAME_UV_MODE_NODES: [TreeNode; 3] =
     tree_nodes_from(KEYFRAME_UV_MODE_TREE, KEYFRAME_UV_MODE_PROBS);
 
+/// Verification hook (C15): `read_with_tree` on tree number `k` of a fixed list of the crate's own tree-node
+/// constants, called the way the frame decoder calls it.
+/// 0: `SEGMENT_TREE_NODE_DEFAULTS`, 1: `KEYFRAME_YMODE_NODES`, 2: `KEYFRAME_UV_MODE_NODES`,
+/// 3 + 10*i + j: `KEYFRAME_BPRED_MODE_NODES[i][j]`, 103..=106: four rows of `COEFF_PROB_NODES` entered at the root,
+/// 107..=110: the same rows entered at `tree[1]` (the `skip` case of `read_coefficients`).
+#[cfg(image_webp_verif)]
+pub(crate) fn verif_read_tree(
+    b: &mut ArithmeticDecoder,
+    k: usize,
+) -> Option<crate::vp8_arithmetic_decoder::BitResult<i8>> {
+    const ROWS: [(usize, usize, usize); 4] = [(0, 1, 0), (0, 2, 0), (1, 0, 0), (1, 2, 2)];
+    Some(match k {
+        0 => b.read_with_tree(&SEGMENT_TREE_NODE_DEFAULTS),
+        1 => b.read_with_tree(&KEYFRAME_YMODE_NODES),
+        2 => b.read_with_tree(&KEYFRAME_UV_MODE_NODES),
+        3..=102 => b.read_with_tree(&KEYFRAME_BPRED_MODE_NODES[(k - 3) / 10][(k - 3) % 10]),
+        103..=110 => {
+            let (i, j, l) = ROWS[(k - 103) % 4];
+            let tree = &COEFF_PROB_NODES[i][j][l];
+            let skip = k >= 107;
+            b.read_with_tree_with_first_node(tree, tree[skip as usize])
+        }
+        _ => return None,
+    })
+}
+
 // Section 13.4
 type TokenProbTables = [[[[Prob; NUM_DCT_TOKENS - 1]; 3]; 8]; 4];
 type TokenProbTreeNodes = [[[[TreeNode; NUM_DCT_TOKENS - 1]; 3]; 8]; 4];
